@@ -33,6 +33,19 @@ CLAIMED = {
         note="Trusted: TLC, Wide.tla (self-tested against Python integers), column independence of the kernels. Values beyond "
              "2^62 are outside the documented domain and not generated.",
         technique="TLA+ code-shaped model checked exhaustively with TLC + replay of generated cases + TLC trace validation on bignum (Wide) arithmetic"),
+    "C08": dict(
+        category="model_checking",
+        text="TLC enumerates LimbLoops.tla (the three-phase loops of zero/copy/negate/add/sub/rotate/automorphism and the "
+             "argument forwarding of the nine big wrappers, one per-limb kernel call per step, symbolic limb contents) for every "
+             "(res,a,b) size triple in 0..3, stride kind and aliasing pattern: final memory = definition, exactly res_size limbs "
+             "written, no other limb modified at any step, termination. Each of the ~13k enumerated cases is replayed on the real "
+             "API (FFT64 AVX and generic dispatch, NTT120) at several N up to 65536 with 60-bit operands, exact-size canary "
+             "buffers and a byte comparison of the whole memory image (padding, limbs past res_size, sources); random shapes up to "
+             "40 limbs with large strides are recorded and re-computed by TLC.",
+        design_ref="DESIGN.md section 4 C08",
+        note="Trusted: TLC; per-limb kernels are symbolic here (validated by C07/C09); rotation/automorphism payloads use the "
+             "numpy reference map that C09 binds to the specification. Strides other than N, N+delta, 2N only sampled.",
+        technique="TLA+ loop-level model checked exhaustively with TLC + replay of every enumerated case + TLC trace validation"),
 }
 
 NOT_YET = "check not built yet in this session (planned, see DESIGN.md section 8)"
